@@ -26,6 +26,7 @@ UNITS = [
     U("swap", "h_swap", "w_List_swap", ["swap.empty_with_full", "swap.full_with_full"]),
     B("copy+dtor.bounded", "h_b_copy", ["b_copy.return"]),
     B("assign.bounded", "h_b_assign", ["b_assign.other"], defs=["NV_ALIAS=0", "NV_BK=1"], bound="lists of at most 1 element, values symbolic", timeout=3000),
+    B("assign@self.bounded", "h_b_assign", ["b_assign.self"], defs=["NV_ALIAS=1", "NV_BK=1"], bound="list of at most 1 element assigned to itself", timeout=3000),
     B("sort.2elements", "h_b_sortn", ["b_sortn.return"], defs=["NV_SORTN=2"], bound="exactly 2 elements, values symbolic",
       cbmc=["--unwind", "4", "--unwinding-assertions"], timeout=900),
     B("clear+find+eq.bounded", "h_b_clear_find_eq", ["b_clear_find_eq.return"]),
@@ -37,7 +38,7 @@ ASSUMPTIONS = [
     "step contracts (insert, remove, swap) hold for ANY list: the neighbourhood (position, predecessor, free item, sentinel) is symbolic, "
     "the rest of the list is unconstrained; sequence semantics follows from the relinking postconditions by induction over operations (paper)",
     "operations that walk the whole list: copy, clear, find, ==, !=, append(list), destruction are BOUNDED stand-ins (<= 3 elements) and not counted as proved; "
-    "operator= (<= 1 element) is a bounded stand-in too; List::sort is checked on a hand-built list of exactly 2 elements only (3 elements: cbmc aborts); self-assignment (h_b_assign with NV_ALIAS=1) is NOT checked",
+    "operator= (<= 1 element) is a bounded stand-in too; List::sort is checked on a hand-built list of exactly 2 elements only (3 elements: cbmc aborts); self-assignment is checked for lists of at most 1 element",
     "element construction / destruction counts (C04) are not checked: goto-cc does not run member destructors in explicit destructor calls",
 ]
 EXPLANATION = ("List::insert / remove / swap are verified against relinking contracts with exact frames over symbolic neighbourhoods; "
